@@ -6,6 +6,7 @@ C03.b constant folders stay in the word domain: result interval, no floats, no z
 C03.c translation round trip (a rule or fold applied to the wrong operator is not an identity)      [shared, E1]
 C03.d size gating: in size mode a fold is applied only under the byte-size comparison
 C03.e record consistency where a rewriting rule re-labels an instruction record
+C03.f context rules are identities on the pattern family
 """
 import ast
 import itertools
@@ -26,11 +27,14 @@ LEVEL_TEXT = ("Decides, for the type-1 rules (apply_transform), validity of ever
               "concrete counterexample); for the constant folders, that results stay in [0,2^256), use exact integer "
               "arithmetic, cannot divide by zero and cannot build unbounded powers; that size mode gates folding by the "
               "byte comparison; and that re-labelled records keep id/opcode/commutative consistent. The ~35 context "
-              "rules of apply_cond_transformation (graph rewrites with use-count side conditions) are not decided.")
+              "rules of apply_cond_transformation (graph rewrites with use-count side conditions) are examined by bounded "
+              "refutation: the function is interpreted on a finite family of term patterns in type-1 normal form and the words "
+              "denoted before/after are compared over a grid of edge-case words; a rule that is wrong only outside that family "
+              "or grid is not found.")
 EXPLANATION = ("Pattern domain: operands in {0, 1, 2^256-1, X, Y} (X, Y universally quantified words, X=X allowed); the rule "
                "function is interpreted on each pattern for each dispatched opcode. Premise (checked): apply_transform "
                "touches operands only through ==, `in` and all_integers.")
-NOT_DECIDED = ("validity of the context rules of apply_cond_transformation; value-exactness of folders beyond domain/definedness "
+NOT_DECIDED = ("validity of the context rules of apply_cond_transformation beyond the pattern family and word grid of C03.f; value-exactness of folders beyond domain/definedness "
                "(e.g. that sar computes an arithmetic shift) except where two operators share one expression")
 EXHAUSTIVE = True
 ASSUMPTIONS = ["inpt_sk[0] is the top-of-stack operand (established by C01.b operand order)",
